@@ -26,7 +26,7 @@ BUDGET = {
 }
 REQUIRED_PROBES = ["unary", "sstream", "cstream", "bidi", "void_output", "foreign_request", "form_none", "form_dict",
                    "form_msg", "retried_identical_payload", "concurrent_callers", "crossing_replies", "stream_cut",
-                   "second_client_same_process", "keyword_rpc", "async_stream", "presence_only_request", "cancelled_mid_call", "threaded_callers", "threads_crossing_replies", "stream_start_fault_retried_sync", "stream_start_fault_surfaced_async"]
+                   "second_client_same_process", "keyword_rpc", "async_stream", "presence_only_request", "cancelled_mid_call", "threaded_callers", "threads_crossing_replies", "stream_start_fault_retried_sync", "stream_start_fault_surfaced_async", "reply_over_4MiB_on_own_channel"]
 ASSUMPTIONS = ["client-streaming and bidi calls are not driven through retried attempts (a consumed request iterator "
                "cannot be replayed; outside the property)"]
 
@@ -94,6 +94,20 @@ def gen_scenarios(spec, rng, n):
         if threads and len(sc["actors"]) > 1:
             sc["threads"] = True
             sc["sched_seed"] = rng.randrange(2 ** 32)
+        if rng.random() < 0.08:
+            # the transport builds its own channel (production path) from the channel args IT chooses; a real channel
+            # enforces gRPC's 4 MiB receive cap unless the args lift it, so a large reply shows what was asked for
+            sc["channel_via"] = "create_channel"
+            cand = [o for a in sc["actors"] for o in a["ops"] if o["kind"] == "unary" and o.get("server") and "reply" in o["server"][-1]
+                    and o["server"][-1]["reply"]]
+            for o in cand[:1]:
+                _, _, m = find_method(spec, o["service"], o["method"])
+                fd = next((f for f in codec.desc(m["output"]).fields if f.type in (f.TYPE_STRING, f.TYPE_BYTES) and f.label != f.LABEL_REPEATED
+                           and f.containing_oneof is None), None)
+                if fd is not None and rng.random() < 0.6:
+                    big = "x" * (4 * 1024 * 1024 + 17)
+                    o["server"][-1]["reply"][fd.name] = big if fd.type == fd.TYPE_STRING else {"__b": big.encode().hex()}
+                    o["big_reply"] = True
         if client == "async" and len(sc["actors"]) > 1 and rng.random() < 0.2:
             # fault: one caller's task is cancelled at an arbitrary instant; the OTHER callers' calls must be unaffected
             sc["cancels"] = [{"actor": rng.randrange(len(sc["actors"])), "at": rng.choice([0.0, 0.001, 0.005, 0.02, 0.06, 0.15])}]
@@ -221,6 +235,8 @@ def judge_op(spec, codec, scenario, op, evs, probes):
         _bump(probes, "presence_only_request")
     if k != "unary" and scenario["client"] == "async":
         _bump(probes, "async_stream")
+    if op.get("big_reply"):
+        _bump(probes, "reply_over_4MiB_on_own_channel")
     if op.get("stream_start_fault"):
         _bump(probes, "stream_start_fault_" + ("retried_sync" if scenario["client"] == "sync" else "surfaced_async"))
 
